@@ -259,9 +259,7 @@ def validate(seed, tier):
             M = rng.standard_normal((n, n))
             if alg in ('lanczos', 'eigh', 'expm_h'):
                 M = M + M.T
-            f = concrete.CHECKS['krylov'](dict(alg=alg, A=M.tolist(), v=rng.standard_normal(n).tolist(), m=m))
-            if f:
-                raise runner.HarnessError(f'concrete Krylov check fails on the unchanged tree ({alg}, n={n}, m={m}): {f}')
+            runner.concrete_check('krylov', dict(alg=alg, A=M.tolist(), v=rng.standard_normal(n).tolist(), m=m))
             n_ok += 1
     return dict(concrete_inputs_checked=n_ok)
 
